@@ -1,5 +1,6 @@
 import Driver.Proto
 import ScrapliModel.Netconf.Store
+import ScrapliModel.Netconf.StoreTimed
 namespace Driver.C08
 open Scrapli Scrapli.Netconf.Store
 
@@ -8,7 +9,7 @@ open Scrapli Scrapli.Netconf.Store
 * `scan <hex>` → `m10 m11 after10 after11 rpc id` : the scanners on one byte string
   (`after*` and `id` are `N` when there is no match) — diffed against Go `regexp` by the harness.
 * `sess <1.0|1.1> <script>` → `dom reasons model pending spec` where the script is a `;`-separated list of
-  `C` (call) `P` (poll) `X` (expire) `R<hex>` (one read) `Z` (counterfactual: empty the buffer) and deliveries
+  `C` (call) `C<n>` (call whose timer is armed with n ticks) `T<n>` (n ticks pass) `P` (poll) `X` (expire) `R<hex>` (one read) `Z` (counterfactual: empty the buffer) and deliveries
   `D|E:<body>:<tail>|<chunks>`, `D|R:<to>:<body>:<tail>|<chunks>`,
   `D|ER:<ebody>:<etail>:<to>:<body>:<tail>|<chunks>` (chunks: comma separated hex, `.` = none).
   `dom` = every delivery satisfies `Delivery.valid` and there are no reads outside deliveries;
@@ -26,6 +27,10 @@ inductive Item
   /-- counterfactual only (`Z`): empty the read loop's buffer here. Used by the harness to decide
   whether an anomaly of a later call is explained by bytes a known finding left in the buffer. -/
   | reset
+  /-- `C<n>`: a call whose timer is armed with `n` ticks (timed layer) -/
+  | tcall (timeout : Nat)
+  /-- `T<n>`: `n` ticks pass -/
+  | ticks (n : Nat)
 
 def parseUnit (s : String) : Option Burst :=
   match s.splitOn ":" with
@@ -40,6 +45,8 @@ def parseItem (s : String) : Option Item :=
   else if s == "P" then some (.ev .poll)
   else if s == "X" then some (.ev .expire)
   else if s == "Z" then some .reset
+  else if s.startsWith "C" then ((s.drop 1).toString.toNat?).map .tcall
+  else if s.startsWith "T" then ((s.drop 1).toString.toNat?).map .ticks
   else if s.startsWith "R" then (fromHex (s.drop 1).toString).map fun b => .ev (.read b)
   else match s.splitOn "|" with
     | ["D", u, cs] => do pure (.dlv ⟨← parseUnit u, ← hexList cs⟩)
@@ -48,11 +55,13 @@ def parseItem (s : String) : Option Item :=
 def itemEvents : Item → List Ev
   | .ev e => [e]
   | .dlv d => d.chunks.map .read
-  | .reset => []
+  | _ => []
 
-def runItem (v : Ver) (c : Client) : Item → Client
-  | .reset => { c with st := { c.st with buf := [] } }
-  | it => run v c (itemEvents it)
+def runItem (v : Ver) (t : TClient) : Item → TClient
+  | .reset => { t with c := { t.c with st := { t.c.st with buf := [] } } }
+  | .tcall d => tstep v t (.call d)
+  | .ticks n => trun v t (List.replicate n .tick)
+  | it => { t with c := run v t.c (itemEvents it) }
 
 def showResults (rs : List (Nat × Option Bytes)) : String :=
   if rs.isEmpty then "." else
@@ -66,10 +75,20 @@ next poll; a call that expires returns an error. -/
 structure SpecSt where
   nextId : Nat
   pending : Option Nat
+  /-- ticks left on the timer of the call in flight (armed when that call started) -/
+  left : Nat := 0
   delivered : List Reply
   results : List (Nat × Option Bytes)
 
 def specStep (s : SpecSt) : Item → SpecSt
+  | .tcall d => match s.pending with
+    | some _ => s
+    | none => { s with pending := some s.nextId, nextId := s.nextId + 1, left := d }
+  | .ticks n => match s.pending with
+    | none => s
+    | some id =>
+      if s.left ≤ n then { s with pending := none, results := s.results ++ [(id, none)] }
+      else { s with left := s.left - n }
   | .ev .call => match s.pending with
     | some _ => s
     | none => { s with pending := some s.nextId, nextId := s.nextId + 1 }
@@ -130,8 +149,8 @@ def handleC08 : List String → String
         | .dlv d => d.valid v | .ev (.read _) => false | .reset => false | _ => true
       let rs := items.filterMap fun it => match it with | .dlv d => some (deliveryReason v d) | _ => none
       let reasons := if rs.isEmpty then "." else ",".intercalate rs
-      let c := items.foldl (runItem v) init
-      let sp := items.foldl specStep ⟨Gen.Netconf.initialMessageID, none, [], []⟩
+      let c := (items.foldl (runItem v) tinit).c
+      let sp := items.foldl specStep ⟨Gen.Netconf.initialMessageID, none, 0, [], []⟩
       let pend := match c.pending with | some id => toString id | none => "-"
       s!"{b2s dom} {reasons} {showResults c.results} {pend} {showResults sp.results}"
     | _, _ => "bad-op"
